@@ -63,7 +63,9 @@ pub fn toy_pub(secret: &[u8; 32]) -> [u8; 32] {
 }
 pub fn toy_sig(public: &[u8], msg: &[u8]) -> Vec<u8> {
     let h = fnv(fnv(0xcbf29ce484222325, public), msg);
-    let len = 40 + (h % 50) as usize;
+    // keys whose public key starts with a byte >= 0xf0 make LONG signatures (300..349 bytes): no record of such a
+    // key can fit in 300 bytes, which exercises every size-error path with a signature longer than the limit
+    let len = 40 + (h % 50) as usize + if public.first().map(|b| *b >= 0xf0).unwrap_or(false) { 260 } else { 0 };
     let mut s = h;
     let mut out = Vec::with_capacity(len + 8);
     while out.len() < len {
